@@ -43,7 +43,10 @@ func (o *Obligation) query(withModel bool) string {
 	for _, f := range vc.implementsFacts() {
 		sb.WriteString(f + "\n")
 	}
-	for _, a := range vc.asserts[:o.pos] {
+	for k, a := range vc.asserts[:o.pos] {
+		if o.Cover && vc.obAsserts[k] {
+			continue // reachability is judged under assumptions only, not under obligations that may fail
+		}
 		sb.WriteString("(assert " + a + ")\n")
 	}
 	if o.Cover {
